@@ -195,10 +195,13 @@ def effect_scan(report):
     allowed = json.load(open(os.path.join(os.path.dirname(__file__), "c15_set_iteration_allowlist.json")))
     extra = [s for s in set_loops if s not in allowed]
     oid = "effects:hash-ordered-iteration-only-at-justified-sites"
-    report.add_obligation(oid, "A", "discharged" if not extra else "sat", "syntactic scan + allowlist with justification", 0.0, "generate_code call graph")
+    report.add_obligation(oid, "A", "discharged" if not extra else "unknown", "syntactic scan + allowlist with justification", 0.0, "generate_code call graph")
     if extra:
-        report.violation(oid, dict(what="new iteration over a hash-ordered set in the generation call graph: the order can reach the emitted text", sites=extra,
-                                   allowlisted=list(allowed)), False)
+        # a site the committed justifications do not cover (new code, or a justified loop that moved into a helper): not a
+        # difference in behaviour by itself - undecided here, and the cross-process comparison below runs with more hash seeds
+        # and more problems so that an order that does reach the text is found
+        report.undecide(f"{oid}: unjustified iteration over a hash-ordered set: {extra[:4]} - decided by the extended cross-process comparison")
+        report.extra["extended_hash_seed_search"] = True
     report.extra["set_iteration_sites"] = {s: allowed.get(s, "NOT JUSTIFIED") for s in set_loops}
     # the justifications are themselves checked: Contract.index is never read, and
     # index_participants() is consumed in the generation call graph only through .keys()/set
@@ -291,6 +294,9 @@ def kind_c(report, tier, seed):
     verif = os.path.dirname(os.path.dirname(os.path.abspath(__file__)))
     per = 6 if tier == "quick" else 40
     seeds = ["0", "1", "12345"] if tier == "quick" else ["0", "1", "2", "12345", "4294967295"]
+    if report.extra.get("extended_hash_seed_search"):
+        per = max(per, 20)
+        seeds = ["0", "1", "2", "3", "4", "5", "6", "7", "12345", "4294967295"]
     runs = []
     for hs in seeds:
         for reverse in (False, True) if hs == seeds[0] else (False,):
